@@ -183,6 +183,18 @@ package vm
 //@   ensures err == nil && old(m.Program.Instructions[m.P]) == program.OP_TAKE ==> len(m.Stack) == len(old(m.Stack)) && is(m.Stack[len(m.Stack) - 1], machine.Funding) && total(m.Stack[len(m.Stack) - 1].(machine.Funding).Parts) == val(old(m.Stack)[len(old(m.Stack)) - 1].(machine.Monetary).Amount)
 //@   ensures err == nil && old(m.Program.Instructions[m.P]) == program.OP_TAKE_MAX ==> len(m.Stack) == len(old(m.Stack)) + 1 && is(m.Stack[len(m.Stack) - 1], machine.Funding) && total(m.Stack[len(m.Stack) - 1].(machine.Funding).Parts) == min(val(old(m.Stack)[len(old(m.Stack)) - 1].(machine.Monetary).Amount), total(old(m.Stack)[len(old(m.Stack)) - 2].(machine.Funding).Parts))
 //@   ensures err == nil && old(m.Program.Instructions[m.P]) == program.OP_TAKE_MAX ==> is(m.Stack[len(m.Stack) - 3], machine.Monetary) && m.Stack[len(m.Stack) - 3].(machine.Monetary).Asset == old(m.Stack)[len(old(m.Stack)) - 1].(machine.Monetary).Asset && val(m.Stack[len(m.Stack) - 3].(machine.Monetary).Amount) == max(0, val(old(m.Stack)[len(old(m.Stack)) - 1].(machine.Monetary).Amount) - total(old(m.Stack)[len(old(m.Stack)) - 2].(machine.Funding).Parts))
+// OP_ALLOC, exactly: one monetary per portion, topmost first, each the floor share of the allotted amount plus one unit for the first (amount - sum of floors) portions
+//@   ensures err == nil && old(m.Program.Instructions[m.P]) == program.OP_ALLOC ==> len(m.Stack) == len(old(m.Stack)) - 2 + len(old(m.Stack)[len(old(m.Stack)) - 1].(machine.Allotment))
+//@   ensures err == nil && old(m.Program.Instructions[m.P]) == program.OP_ALLOC ==> forall j int :: {m.Stack[j]} len(old(m.Stack)) - 2 <= j && j < len(m.Stack) ==> is(m.Stack[j], machine.Monetary) && m.Stack[j].(machine.Monetary).Asset == old(m.Stack)[len(old(m.Stack)) - 2].(machine.Monetary).Asset && val(m.Stack[j].(machine.Monetary).Amount) == floorShare(val(old(m.Stack)[len(old(m.Stack)) - 2].(machine.Monetary).Amount), old(m.Stack)[len(old(m.Stack)) - 1].(machine.Allotment)[len(m.Stack) - 1 - j]) + (len(m.Stack) - 1 - j < val(old(m.Stack)[len(old(m.Stack)) - 2].(machine.Monetary).Amount) - floorsum(old(m.Stack)[len(old(m.Stack)) - 1].(machine.Allotment), val(old(m.Stack)[len(old(m.Stack)) - 2].(machine.Monetary).Amount)) ? 1 : 0)
+// arithmetic steps, exactly (the amounts a send is asked to move are computed by these)
+//@   ensures err == nil && old(m.Program.Instructions[m.P]) == program.OP_IADD ==> len(m.Stack) == len(old(m.Stack)) - 1 && is(m.Stack[len(m.Stack) - 1], *machine.MonetaryInt) && val(m.Stack[len(m.Stack) - 1].(*machine.MonetaryInt)) == val(old(m.Stack)[len(old(m.Stack)) - 2].(*machine.MonetaryInt)) + val(old(m.Stack)[len(old(m.Stack)) - 1].(*machine.MonetaryInt))
+//@   ensures err == nil && old(m.Program.Instructions[m.P]) == program.OP_ISUB ==> len(m.Stack) == len(old(m.Stack)) - 1 && is(m.Stack[len(m.Stack) - 1], *machine.MonetaryInt) && val(m.Stack[len(m.Stack) - 1].(*machine.MonetaryInt)) == val(old(m.Stack)[len(old(m.Stack)) - 2].(*machine.MonetaryInt)) - val(old(m.Stack)[len(old(m.Stack)) - 1].(*machine.MonetaryInt))
+//@   ensures err == nil && old(m.Program.Instructions[m.P]) == program.OP_MONETARY_NEW ==> len(m.Stack) == len(old(m.Stack)) - 1 && is(m.Stack[len(m.Stack) - 1], machine.Monetary) && m.Stack[len(m.Stack) - 1].(machine.Monetary).Asset == old(m.Stack)[len(old(m.Stack)) - 2].(machine.Asset) && m.Stack[len(m.Stack) - 1].(machine.Monetary).Amount == old(m.Stack)[len(old(m.Stack)) - 1].(*machine.MonetaryInt)
+//@   ensures err == nil && old(m.Program.Instructions[m.P]) == program.OP_MONETARY_ADD ==> len(m.Stack) == len(old(m.Stack)) - 1 && is(m.Stack[len(m.Stack) - 1], machine.Monetary) && m.Stack[len(m.Stack) - 1].(machine.Monetary).Asset == old(m.Stack)[len(old(m.Stack)) - 2].(machine.Monetary).Asset && old(m.Stack)[len(old(m.Stack)) - 1].(machine.Monetary).Asset == old(m.Stack)[len(old(m.Stack)) - 2].(machine.Monetary).Asset && val(m.Stack[len(m.Stack) - 1].(machine.Monetary).Amount) == val(old(m.Stack)[len(old(m.Stack)) - 2].(machine.Monetary).Amount) + val(old(m.Stack)[len(old(m.Stack)) - 1].(machine.Monetary).Amount)
+//@   ensures err == nil && old(m.Program.Instructions[m.P]) == program.OP_MONETARY_SUB ==> len(m.Stack) == len(old(m.Stack)) - 1 && is(m.Stack[len(m.Stack) - 1], machine.Monetary) && m.Stack[len(m.Stack) - 1].(machine.Monetary).Asset == old(m.Stack)[len(old(m.Stack)) - 2].(machine.Monetary).Asset && old(m.Stack)[len(old(m.Stack)) - 1].(machine.Monetary).Asset == old(m.Stack)[len(old(m.Stack)) - 2].(machine.Monetary).Asset && val(m.Stack[len(m.Stack) - 1].(machine.Monetary).Amount) == val(old(m.Stack)[len(old(m.Stack)) - 2].(machine.Monetary).Amount) - val(old(m.Stack)[len(old(m.Stack)) - 1].(machine.Monetary).Amount)
+//@   ensures err == nil && old(m.Program.Instructions[m.P]) == program.OP_FUNDING_SUM ==> len(m.Stack) == len(old(m.Stack)) + 1 && m.Stack[len(m.Stack) - 2] == old(m.Stack)[len(old(m.Stack)) - 1] && is(m.Stack[len(m.Stack) - 1], machine.Monetary) && m.Stack[len(m.Stack) - 1].(machine.Monetary).Asset == old(m.Stack)[len(old(m.Stack)) - 1].(machine.Funding).Asset && val(m.Stack[len(m.Stack) - 1].(machine.Monetary).Amount) == total(old(m.Stack)[len(old(m.Stack)) - 1].(machine.Funding).Parts)
+//@   ensures err == nil && old(m.Program.Instructions[m.P]) == program.OP_TAKE ==> 0 <= val(old(m.Stack)[len(old(m.Stack)) - 1].(machine.Monetary).Amount) && val(old(m.Stack)[len(old(m.Stack)) - 1].(machine.Monetary).Amount) <= total(old(m.Stack)[len(old(m.Stack)) - 2].(machine.Funding).Parts) && old(m.Stack)[len(old(m.Stack)) - 1].(machine.Monetary).Asset == old(m.Stack)[len(old(m.Stack)) - 2].(machine.Funding).Asset
+//@   ensures err == nil && old(m.Program.Instructions[m.P]) == program.OP_TAKE_MAX ==> 0 <= val(old(m.Stack)[len(old(m.Stack)) - 1].(machine.Monetary).Amount) && old(m.Stack)[len(old(m.Stack)) - 1].(machine.Monetary).Asset == old(m.Stack)[len(old(m.Stack)) - 2].(machine.Funding).Asset
 // OP_SAVE, exactly: `save [A N] from @acc` lowers the tracked balance of (acc, A) by N, `save [A *] from @acc` lowers a positive one to 0, nothing else moves
 //@   ensures err == nil && old(m.Program.Instructions[m.P]) == program.OP_SAVE && is(old(m.Stack)[len(old(m.Stack)) - 2], machine.Monetary) ==> forall a machine.AccountAddress, x machine.Asset :: {bal(m.Balances, a, x)} {bal(old(m.Balances), a, x)} tracked(old(m.Balances), a, x) ==> bal(m.Balances, a, x) == bal(old(m.Balances), a, x) - ((a == old(m.Stack)[len(old(m.Stack)) - 1].(machine.AccountAddress) && x == old(m.Stack)[len(old(m.Stack)) - 2].(machine.Monetary).Asset) ? val(old(m.Stack)[len(old(m.Stack)) - 2].(machine.Monetary).Amount) : 0)
 //@   ensures err == nil && old(m.Program.Instructions[m.P]) == program.OP_SAVE && is(old(m.Stack)[len(old(m.Stack)) - 2], machine.Asset) ==> forall a machine.AccountAddress, x machine.Asset :: {bal(m.Balances, a, x)} {bal(old(m.Balances), a, x)} tracked(old(m.Balances), a, x) ==> bal(m.Balances, a, x) == ((a == old(m.Stack)[len(old(m.Stack)) - 1].(machine.AccountAddress) && x == old(m.Stack)[len(old(m.Stack)) - 2].(machine.Asset) && bal(old(m.Balances), a, x) > 0) ? 0 : bal(old(m.Balances), a, x))
@@ -207,6 +219,8 @@ package vm
 //@   loop 4:
 //@     invariant unchangedExcept(m, old(m), Stack) && wfStack(m.Stack) && 0 - 1 <= i && i < len(parts)
 //@     invariant forall j int :: {parts[j]} 0 <= j && j < len(parts) ==> parts[j] != nil
+//@     invariant len(m.Stack) == len(old(m.Stack)) - 2 + (len(parts) - 1 - i)
+//@     invariant forall j int :: {m.Stack[j]} len(old(m.Stack)) - 2 <= j && j < len(m.Stack) ==> is(m.Stack[j], machine.Monetary) && m.Stack[j].(machine.Monetary).Asset == monetary.Asset && m.Stack[j].(machine.Monetary).Amount == parts[len(parts) - 1 - (j - (len(old(m.Stack)) - 2))]
 //@     invariant forall a machine.AccountAddress, x machine.Asset :: {infl(m.Stack, a, x)} {infl(old(m.Stack), a, x)} infl(m.Stack, a, x) == infl(old(m.Stack), a, x)
 //@   loop 5:
 //@     index k
